@@ -3,7 +3,9 @@ interface (DESIGN B.5)."""
 
 fields("xandikos.webdav.WebDAVApp", {
     "backend": "obj:xandikos.web.XandikosBackend", "strict": "bool",
+    "properties": "opaque:Registry", "reporters": "opaque:Registry", "methods": "opaque:Registry",
 })
+opaque("Registry")
 fields("xandikos.webdav.Response", {"status": "int", "reason": "str", "ghost_inner": "opt[str]"})
 
 
@@ -23,8 +25,6 @@ class send_simple_dav_error:
     def ensures(statuscode, result):
         return result.status == 207 and result.ghost_inner == statuscode
 
-
-opaque("Element")
 
 
 def req_path(request):
@@ -88,3 +88,104 @@ class Put_handle:
                             and joined(effect_arg(0, 3)) == body and effect_arg(0, 4) == request.content_type
                             and (result.status == 201) == (cm_outcome(parent, name, effect_arg(0, 3), request.content_type)
                                                            not in (1, 2, 3))))
+
+
+@contract("xandikos.webdav.DeleteMethod.handle",
+          params={"self": "obj:xandikos.webdav.DeleteMethod", "request": "opaque:Request", "environ": "dict[str,str]",
+                  "app": "obj:xandikos.webdav.WebDAVApp"},
+          returns="obj:xandikos.webdav.Response", may_raise=["ValueError", "KeyError", "AssertionError"])
+class Delete_handle:
+    def requires(self, app):
+        return app.backend.path != ""
+
+    def ensures(self, request, result):
+        r = target(request)
+        p = req_path(request)
+        parent = resource_at(posixpath.normpath(posixpath.split(p.rstrip("/"))[0]))
+        name = posixpath.split(p.rstrip("/"))[1]
+        im = header(request.headers, "If-Match")
+        refused = im is not None and not spec_etag_matches(im, current_etag(request))
+        return (implies(r is None or parent is None, result.status == 404 and effect_names() == [])
+                # C03: a failing If-Match is answered 412 and nothing is deleted
+                and implies(r is not None and parent is not None and refused,
+                            result.status == 412 and effect_names() == [])
+                and implies(r is not None and parent is not None and not refused,
+                            result.status == 204 and effect_names() == ["delete_member"]
+                            and effect_arg(0, 1) == parent and effect_arg(0, 2) == name
+                            and effect_arg(0, 3) == current_etag(request)))
+
+
+opaque("Params")
+opaque("PropStat")
+
+
+@contract("xandikos.webdav.parse_type", params={"content_type": "str"}, returns="tuple[str,opaque:Params]")
+class parse_type_c:
+    """Not verified here (loop over ';'-separated parameters): only the shape is used."""
+
+
+@contract("xandikos.webdav._readXmlBody",
+          params={"request": "opaque:Request", "expected_tag": "opt[str]", "strict": "bool"},
+          defaults={"expected_tag": None, "strict": True},
+          returns="opaque:Element", may_raise=["BadRequestError", "UnsupportedMediaType"], effects=[["read_body"]])
+class readXmlBody_c:
+    pass
+
+
+@contract("xandikos.webdav.apply_modify_prop",
+          params={"el": "opaque:Element", "href": "str", "resource": "obj:xandikos.web.Collection", "properties": "opaque:Registry"},
+          returns="list[opaque:PropStat]", may_raise=["BadRequestError"], effects=[["modify_prop", "resource"]])
+class apply_modify_prop_c:
+    pass
+
+
+@contract("xandikos.webdav.propstat_as_xml", params={"propstat": "list[opaque:PropStat]"}, returns="list[opaque:Element]")
+class propstat_as_xml_c:
+    pass
+
+
+@contract("xandikos.webdav._send_xml_response", params={"status": "str", "et": "none", "out_encoding": "str"},
+          returns="obj:xandikos.webdav.Response")
+class send_xml_response_c:
+    def ensures(status, result):
+        return implies(status == "201 Created", result.status == 201)
+
+
+@contract("xandikos.webdav.nonfatal_bad_request", params={"message": "str", "strict": "bool"},
+          defaults={"strict": False})
+class nonfatal_bad_request_c:
+    def raises_BadRequestError(strict):
+        return strict
+
+
+@contract("xandikos.webdav.MkcolMethod.handle",
+          params={"self": "obj:xandikos.webdav.MkcolMethod", "request": "opaque:Request", "environ": "dict[str,str]",
+                  "app": "obj:xandikos.webdav.WebDAVApp"},
+          returns="obj:xandikos.webdav.Response",
+          may_raise=["ValueError", "KeyError", "AssertionError", "BadRequestError", "UnsupportedMediaType",
+                     "FileExistsError"],
+          locals={"propstat": "list[opaque:PropStat]"}, loop_modifies={0: ["propstat"]})
+class Mkcol_handle:
+    """C13: the collection is created at the normalised request path (obligation
+    #pre:create_collection).  C01: a request that is refused (400/415) creates nothing."""
+
+    def requires(self, app):
+        return app.backend.path != ""
+
+    def ensures(self, request, result):
+        return (implies(target(request) is not None, result.status == 405 and "create_collection" not in effect_names())
+                and implies(result.status != 201, "created" not in effect_names()))
+
+    def ensures_raise(self):
+        # nothing is created before the request body has been read and accepted
+        return implies("created" in effect_names(), effect_names()[0] == "read_body")
+
+    def ensures_raise_nothing_created(self):
+        # C01 in full: a request answered with an error creates nothing
+        return "created" not in effect_names()
+
+    def inv_0(self, propstat, _i, _seq):
+        return True
+
+    def inv_1(self, _i, _seq):
+        return True
